@@ -185,7 +185,7 @@ class Statement(object):
         except Exception as error:
             raise TranslationError(str(error), self)
 
-    def determine_pcr_relative_sizes(self, statements, this_index):
+    def determine_pcr_relative_sizes(self, statements, this_index, force_16_bit=False):
         """
         Given a PCR relative operation, determine whether we have an 8-bit or 16-bit offset
         from the program counter. Mark the correct size for the statement when complete,
@@ -193,6 +193,7 @@ class Statement(object):
 
         :param statements: the full set of statements that make up the program
         :param this_index: the index that this instruction occurs at
+        :param force_16_bit: use a 16-bit offset when the range estimate cannot decide
         """
         # TODO: implement detection of 5-bit offsets as an optimization
         min_size = 0
@@ -206,7 +207,7 @@ class Statement(object):
         range_count = range(this_index, rel_index)
         if rel_index < this_index:
             positive_range = False
-            range_count = range(rel_index, this_index)
+            range_count = range(rel_index, this_index + 1)
 
         for x in range_count:
             max_size += statements[x].code_pkg.max_size
@@ -224,7 +225,7 @@ class Statement(object):
                 self.fixed_size = True
                 raw_post_byte |= self.code_pkg.post_byte_choices[0]
                 self.code_pkg.post_byte = NumericValue(raw_post_byte)
-            elif min_size > 127 and max_size > 127:
+            elif force_16_bit or (min_size > 127 and max_size > 127):
                 self.code_pkg.size += 2
                 self.code_pkg.max_size = self.code_pkg.size
                 self.pcr_size_hint = 4
@@ -239,7 +240,7 @@ class Statement(object):
                 self.fixed_size = True
                 raw_post_byte |= self.code_pkg.post_byte_choices[0]
                 self.code_pkg.post_byte = NumericValue(raw_post_byte)
-            elif min_size > 128 and max_size > 128:
+            elif force_16_bit or (min_size > 128 and max_size > 128):
                 self.code_pkg.size += 2
                 self.code_pkg.max_size = self.code_pkg.size
                 self.pcr_size_hint = 4
